@@ -802,6 +802,10 @@ func sameCtxOrChild(bound, arg ssa.Value) bool {
 	if _, _, ok := core.FieldOf(bound); ok {
 		return true
 	}
+	// ... read into a local first (ctx := cs.ctx)
+	if core.AllOrigins(bound, func(o ssa.Value) bool { _, _, ok := core.FieldOf(o); return ok }) {
+		return true
+	}
 	chain, r2 := ctxChain(arg)
 	_ = chain
 	_, rb := ctxChain(bound)
